@@ -268,10 +268,13 @@ func copyRegularFile(src, dst string, perm os.FileMode) error {
 	defer dstFile.Close()
 
 	if _, err := io.Copy(dstFile, srcFile); err != nil {
-		return err
+		return errFromOS(err)
 	}
 
-	return dstFile.Close()
+	if err := dstFile.Close(); err != nil {
+		return errFromOS(err)
+	}
+	return nil
 }
 
 func (fs LocalFileSystem) Copy(ctx context.Context, src, dst string, options *CopyOptions) (created bool, err error) {
